@@ -189,22 +189,13 @@ def main(ctx, cases=None, transforms=None):
                          "traces_validated_against_impl": len(sample)})
     out = []
     if fails:
-        sws = tuple(dict.fromkeys(sw for _, sw in ATTRIBUTION))
-        flat = [x for f in fails[:40] for x in (f[0], f[1])]
-        if proofs_ok and not corr_bad:      # counterfactuals are only usable when model and code agree
-            pl.run_model(flat, sws)
-        for r, tr, R, t, label, d, tol, MA, MB in fails:
-            fid, table = None, {}
-            for f_id, sw in ATTRIBUTION:
-                a, bb = r.model.get(sw), tr.model.get(sw)
-                if a is None or bb is None:
-                    continue
-                e = expected([pl.unhex(x) for x in a], r.nA, r.nB, MA, MB)
-                table[sw] = max([abs(x - pl.unhex(y)) for x, y in zip(e, bb)] + [0.0])
-            for f_id, sw in ATTRIBUTION:
-                if sw in table and table[sw] <= tol and proofs_ok and not corr_bad:
-                    fid = f_id      # (never attributed when model and code disagree: the model's counterfactuals then say nothing about the code)
-                    break
+        def mk(nA, nB, MA, MB):
+            return lambda blocks: max([abs(x - y) for x, y in zip(expected(blocks[0], nA, nB, MA, MB), blocks[1])] + [0.0])
+        items = [{"runs": (r, tr), "tol": tol, "defect": mk(r.nA, r.nB, MA, MB), "f": (r, tr, R, t, label, d, tol)} for r, tr, R, t, label, d, tol, MA, MB in fails]
+        pl.lazy_attribute(items, ATTRIBUTION, usable=bool(proofs_ok and not corr_bad))
+        for it in items:
+            r, tr, R, t, label, d, tol = it["f"]
+            fid, table = it["fid"], it["table"]
             if fid is None and proofs_ok and not corr_bad and (r.warn[0] > 0 or tr.warn[0] > 0):
                 fid = "type1-quadrature-unconverged"   # the library itself reported a type-1 quadrature that did not converge
             out.append({"case": r.case, "transformed_case": tr.case, "R": R, "t": t, "transformation": label, "request": pl.fmt_case(r.case), "error": d, "allowed": tol,
